@@ -572,18 +572,18 @@ class Program:
 # ---------------------------------------------------------------------------
 
 TRANSPARENT_CALLS = re.compile(
-    r"(::clone::Clone>::clone$|::convert::Into<U>>::into$|::convert::From<.*>>::from$|::convert::From<T>>::from$|"
-    r"::ops::Deref>::deref$|::ops::DerefMut>::deref_mut$|::convert::AsRef<.*>>::as_ref$|::borrow::Borrow<.*>>::borrow$|"
-    r"::convert::TryFrom<.*>>::try_from$|::convert::TryInto<.*>>::try_into$|"
-    r"std::option::Option::<T>::(unwrap|expect|unwrap_or|unwrap_or_default|unwrap_or_else|as_ref|as_mut|cloned|copied|ok_or|ok_or_else|map_err|take)$|"
-    r"std::result::Result::<T, E>::(unwrap|expect|unwrap_or|unwrap_or_default|unwrap_or_else|as_ref|as_mut|ok|map_err)$|"
-    r"::ops::Try>::branch$|::ops::FromResidual<.*>>::from_residual$|"
-    r"core::num::<impl \w+>::(wrapping_\w+|saturating_\w+|checked_\w+|overflowing_\w+|min|max|pow|div_ceil|next_power_of_two|to_[lb]e|from_[lb]e|swap_bytes|abs|unsigned_abs|abs_diff|clamp)$|"
-    r"std::cmp::(min|max)$|std::cmp::Ord::(min|max|clamp)$|"
-    r"::to_owned$|::to_vec$|::to_string$|std::borrow::ToOwned::to_owned$|"
-    r"std::convert::identity$|std::hint::must_use$|std::mem::(take|replace)$|"
-    r"std::pin::Pin::<Ptr>::(new|new_unchecked|get_mut|as_mut)$|<F as std::future::IntoFuture>::into_future$|"
-    r"std::boxed::Box::<T>::(new|pin)$|std::sync::Arc::<T>::new$)"
+    r"(\bClone>?::clone$|\bInto<U>>::into$|\bFrom<.*>>::from$|"
+    r"\bDeref>::deref$|\bDerefMut>::deref_mut$|\bAsRef<.*>>::as_ref$|\bBorrow<.*>>::borrow$|"
+    r"\bTryFrom<.*>>::try_from$|\bTryInto<.*>>::try_into$|"
+    r"\bOption::<T>::(unwrap|expect|unwrap_or|unwrap_or_default|unwrap_or_else|as_ref|as_mut|cloned|copied|ok_or|ok_or_else|map_err|take)$|"
+    r"\bResult::<T, E>::(unwrap|expect|unwrap_or|unwrap_or_default|unwrap_or_else|as_ref|as_mut|ok|map_err)$|"
+    r"\bTry>::branch$|\bFromResidual<.*>>::from_residual$|"
+    r"\bnum::<impl \w+>::(wrapping_\w+|saturating_\w+|checked_\w+|overflowing_\w+|min|max|pow|div_ceil|next_power_of_two|to_[lb]e|from_[lb]e|swap_bytes|abs|unsigned_abs|abs_diff|clamp)$|"
+    r"\bcmp::(min|max)$|\bOrd::(min|max|clamp)$|"
+    r"::to_owned$|::to_vec$|::to_string$|"
+    r"\bconvert::identity$|\bhint::must_use$|\bmem::(take|replace)$|"
+    r"\bPin::<Ptr>::(new|new_unchecked|get_mut|as_mut)$|\bIntoFuture>::into_future$|"
+    r"\bBox::<T>::(new|pin)$|\bArc::<T>::new$)"
 )
 
 
